@@ -99,7 +99,15 @@ CHECKS["C04"] = dict(
     technique="TLA+ model of the speech post-processing pipeline (Speech.tla: replace_array_string, optional-word de-duplication, marker stripping, pause merging) model-checked by TLC (OperandsKept); TLC-enumerated textbook-grammar contexts (ExprGen.tla) with a distinct decimal literal at every operand position spoken under every language x style x verbosity; literal counts judged by TLC (Trace_Operands.tla)",
     text="Design: for all child-string triples up to a bound, post-processing never deletes an operand token; the is_repetitive of the pinned commit is refuted. Implementation: every context P(..Q(..)..) of 31 productions (1 922 trees, exhaustive to depth 2) plus simulated depth-4 nestings, literals written with the language's decimal mark, under language x {ClearSpeak, SimpleSpeak} x {Terse, Medium, Verbose} (all 48 in thorough, 3 seeded per tree in quick); TLC counts each literal in the speech (digit boundaries) and rejects fewer occurrences than planted.",
     design_ref="DESIGN.md section 5 C04",
-    note="Rule files are data: coverage of rule paths is by generated expressions, not by a model of each rule. More occurrences than planted is MODEL-DRIFT only. Two known findings (decimal-comma mixed number; Vietnamese under/over scripts) are listed.",
+    note="Rule files are data: coverage of rule paths is by generated expressions, not by a model of each rule. More occurrences than planted is MODEL-DRIFT only. Three known findings (decimal-comma mixed number; Vietnamese under/over scripts; is_repetitive deleting the speech in front of a repeated optional word, identified per case by the repetitive_drop hook event) are listed and their recorded examples are judged in every run.",
+)
+
+CHECKS["C05"] = dict(
+    category="model_checking",
+    technique="TLA+ model of the speech post-processing pipeline (Speech.tla) model-checked by TLC (NoMarkers); speech, overview and navigation speech recorded from the library for suite expressions, marker-bearing token strings and a sweep over every key of each language's Unicode tables under every language x style x verbosity, each returned string judged by TLC (Trace_Speech.tla)",
+    text="Design: for all child-string triples up to a bound no optional-word, concatenation or auto-pause marker survives post-processing. Implementation: for every shipped language x style x verbosity (42 configurations, seeded capital-letter preferences): get_spoken_text and get_overview_text of suite expressions (60 seeded in quick, all ~2 200 in thorough), navigation speech of seeded walks, token strings with embedded U+2061..2064 and private-use characters, and one expression per key of the language's unicode.yaml / unicode-full.yaml (all keys in thorough) plus characters in no table; TLC rejects Err, blank speech for visible content, private-use code points not in the input, [[ ]], raw invisible operators and angle brackets not in the input.",
+    design_ref="DESIGN.md section 5 C05",
+    note="Sampled, not exhaustive, over expressions; exhaustive over languages, styles, verbosities and (thorough) table keys. Navigation commands that answer Err are C08/C11's business. Two known findings (silent non-move at a bracket edge; Vietnamese navigation into a table) are listed and their recorded examples are judged in every run.",
 )
 
 CHECKS["C06"] = dict(
@@ -123,7 +131,7 @@ NOT_YET = {}
 
 def main():
     props = [json.loads(l) for l in open(os.path.join(VERIF, "properties.jsonl"))]
-    hook_commits = subprocess.run(["git", "-C", "/repo", "log", "--format=%H %s", "--grep=^verif hooks"],
+    hook_commits = subprocess.run(["git", "-C", "/repo", "log", "--format=%H %s", "--grep=^verif hook"],
                                   stdout=subprocess.PIPE, text=True).stdout.strip().splitlines()
     checks = []
     na = []
